@@ -313,12 +313,12 @@ def run_lanes(prop, seed, outdir):
     if prop == "C05":
         lanes = [
             ("asan", "mem", 40000, dict(RUSTFLAGS=cfgflag + " -Zsanitizer=address -Cforce-frame-pointers=yes", ASAN_OPTIONS="detect_leaks=1:halt_on_error=1:abort_on_error=0"), ["cargo", "+nightly", "build", "--offline", "--release", "--target", tgt]),
-            ("miri", "mem", 60, dict(MIRIFLAGS="-Zmiri-disable-isolation"), None),
+            ("miri", "mem", 60, dict(MIRIFLAGS="-Zmiri-disable-isolation -Zmiri-tree-borrows"), None),
         ]
     elif prop == "C18":
         lanes = [
             ("tsan", "threads", 500, dict(RUSTFLAGS=cfgflag + " -Zsanitizer=thread", TSAN_OPTIONS="halt_on_error=1"), ["cargo", "+nightly", "build", "--offline", "--release", "-Zbuild-std", "--target", tgt]),
-            ("miri", "threads", 2, dict(MIRIFLAGS="-Zmiri-disable-isolation"), None),
+            ("miri", "threads", 2, dict(MIRIFLAGS="-Zmiri-disable-isolation -Zmiri-tree-borrows"), None),
         ]
     summary = {}
     violations = []
